@@ -1202,12 +1202,12 @@ func c05Teardown(r *Run, m *ServerModel) {
 				continue
 			}
 			ngo++
-			lit, _ := unparen(g.Call.Fun).(*ast.FuncLit)
+			body := m.spawnedBody(g.Call)
 			// An Add that no earlier Done or go statement has used up must precede on every path.
 			added := addedAt[g]
 			done := false
-			if lit != nil {
-				ast.Inspect(lit.Body, func(n2 ast.Node) bool {
+			if body != nil {
+				ast.Inspect(body, func(n2 ast.Node) bool {
 					if c, ok := n2.(*ast.CallExpr); ok && calleeKey(info, c) == "sync.WaitGroup.Done" {
 						done = true
 					}
@@ -1357,6 +1357,15 @@ func (c *ownChecker) deferredReleaseList(fi *FuncInfo, list ast.Expr) bool {
 			}
 			if byPointer && releasesAll(d.Call, obj, 0) {
 				found = true
+			}
+			// defer release.decRefAll(): a method of the list's type with a pointer receiver
+			// (the address is taken at the defer, the list is read when the method runs)
+			if sel, ok := unparen(d.Call.Fun).(*ast.SelectorExpr); ok && objOf(info, sel.X) == obj {
+				if tf := c.r.L.FuncOf(callee(info, d.Call)); tf != nil && tf.Decl.Body != nil && tf.Decl.Recv != nil && len(tf.Decl.Recv.List) == 1 && len(tf.Decl.Recv.List[0].Names) == 1 {
+					if _, isPtr := tf.Decl.Recv.List[0].Type.(*ast.StarExpr); isPtr && releasesAll(tf.Decl.Body, info.Defs[tf.Decl.Recv.List[0].Names[0]], 1) {
+						found = true
+					}
+				}
 			}
 		}
 		return true
